@@ -63,3 +63,113 @@ package prover
 //@     invariant len(newBits) == n - 8 - i
 //@     invariant forall t :: 0 <= t && t < len(newBits) ==> newBits[t] == gadget.Variable[pack.beIdx(t, n)]
 //@     decreases i + 8
+
+// ---------------------------------------------------------------------------------------
+// C01 / C02 — Merkle path, insertion and deletion rounds (BN254 field, symbolic depth/batch)
+// ---------------------------------------------------------------------------------------
+
+//@ func (ProofRound) DefineGadget
+//@   property C01 C02
+//@   returns Variable
+//@   ensures api.ok == (ok0 && isbool(gadget.Direction))
+//@   ensures isbool(gadget.Direction) ==> result == merkle.step(gadget.Direction, gadget.Hash, gadget.Sibling)
+//@   ensures inField(result)
+
+//@ func (VerifyProof) DefineGadget
+//@   property C01 C02
+//@   returns Variable
+//@   requires len(gadget.Proof) == len(gadget.Path) + 1
+//@   let k = len(gadget.Path)
+//@   ensures api.ok == (ok0 && bits.allboolFrom(gadget.Path, 0, k))
+//@   ensures bits.allboolFrom(gadget.Path, 0, k) ==> result == merkle.foldP(gadget.Proof, gadget.Path, k)
+//@   ensures inField(result)
+//@   lemmas allboolFrom_snoc allboolFrom_end foldP_end foldP_split
+//@   loop 1
+//@     invariant 1 <= i && i <= len(gadget.Proof)
+//@     invariant api.ok == (ok0 && bits.allboolFrom(gadget.Path, 0, i-1))
+//@     invariant bits.allboolFrom(gadget.Path, 0, i-1) ==> sum == merkle.foldP(gadget.Proof, gadget.Path, i-1)
+//@     invariant inField(sum)
+//@     decreases len(gadget.Proof) - i
+
+//@ func (InsertionRound) DefineGadget
+//@   property C01
+//@   returns Variable
+//@   requires 0 <= gadget.Depth && gadget.Depth <= 32 && len(gadget.Proof) == gadget.Depth
+//@   let D = gadget.Depth
+//@   let path = bits.bitsOf(gadget.Index, D)
+//@   let acc = gadget.Index < bits.pow2(D) && merkle.fold(0, gadget.Proof, path, D) == gadget.PrevRoot
+//@   ensures[A] api.ok ==> ok0 && acc
+//@   ensures[H] api.ok == (ok0 && acc)
+//@   ensures[A] api.ok ==> result == merkle.fold(gadget.Item, gadget.Proof, path, D)
+//@   ensures[H] result == merkle.fold(gadget.Item, gadget.Proof, path, D)
+//@   ensures inField(result)
+//@   lemmas pow2_le_32 binvalFrom_bounds bits_unique binvalFrom_bitsOf allbool_bitsOf bitsOf_sel hi_id hi_bounds foldP_is_fold
+//@   assert@return[A] api.ok ==> bits.binvalFrom(currentPath, 0, D) == gadget.Index
+//@   assert@return[A] api.ok ==> (forall t :: 0 <= t && t < D ==> currentPath[t] == bits.bit(gadget.Index, t))
+
+//@ func (InsertionProof) DefineGadget
+//@   property C01
+//@   returns Variable
+//@   requires 0 <= gadget.BatchSize && len(gadget.IdComms) == gadget.BatchSize && len(gadget.MerkleProofs) == gadget.BatchSize
+//@   requires forall j :: 0 <= j && j < gadget.BatchSize ==> len(gadget.MerkleProofs[j]) == gadget.Depth
+//@   requires 0 <= gadget.Depth && gadget.Depth <= 32
+//@   let valid = merkle.insValid(gadget.StartIndex, gadget.PreRoot, gadget.IdComms, gadget.MerkleProofs, gadget.Depth, gadget.BatchSize)
+//@   let root = merkle.insRoot(gadget.StartIndex, gadget.PreRoot, gadget.IdComms, gadget.MerkleProofs, gadget.Depth, gadget.BatchSize)
+//@   ensures[A] api.ok ==> ok0 && valid
+//@   ensures[H] api.ok == (ok0 && valid)
+//@   ensures[A] api.ok ==> result == root
+//@   ensures[H] result == root
+//@   ensures inField(result)
+//@   lemmas insValid_split insValid_end
+//@   reveal field.add merkle.insRoot
+//@   loop 1
+//@     invariant 0 <= i && i <= gadget.BatchSize
+//@     invariant[A] api.ok ==> ok0 && merkle.insValid(gadget.StartIndex, gadget.PreRoot, gadget.IdComms, gadget.MerkleProofs, gadget.Depth, i)
+//@     invariant[H] api.ok == (ok0 && merkle.insValid(gadget.StartIndex, gadget.PreRoot, gadget.IdComms, gadget.MerkleProofs, gadget.Depth, i))
+//@     invariant[A] api.ok ==> prevRoot == merkle.insRoot(gadget.StartIndex, gadget.PreRoot, gadget.IdComms, gadget.MerkleProofs, gadget.Depth, i)
+//@     invariant[H] prevRoot == merkle.insRoot(gadget.StartIndex, gadget.PreRoot, gadget.IdComms, gadget.MerkleProofs, gadget.Depth, i)
+//@     invariant inField(prevRoot)
+//@     decreases gadget.BatchSize - i
+
+//@ func (DeletionRound) DefineGadget
+//@   property C02
+//@   returns Variable
+//@   requires 0 <= gadget.Depth && gadget.Depth <= 31 && len(gadget.MerkleProofs) == gadget.Depth
+//@   let D = gadget.Depth
+//@   let skip = bits.bit(gadget.Index, D)
+//@   let path = bits.bitsOf(gadget.Index, D)
+//@   let acc = gadget.Index < bits.pow2(D + 1) && (skip == 1 || merkle.fold(gadget.Item, gadget.MerkleProofs, path, D) == gadget.Root)
+//@   let next = (skip == 1 ? gadget.Root : merkle.fold(0, gadget.MerkleProofs, path, D))
+//@   ensures[A] api.ok ==> ok0 && acc
+//@   ensures[H] api.ok == (ok0 && acc)
+//@   ensures[A] api.ok ==> result == next
+//@   ensures[H] result == next
+//@   ensures inField(result)
+//@   lemmas pow2_le_32 binvalFrom_bounds bits_unique binvalFrom_bitsOf allbool_bitsOf bitsOf_sel hi_id hi_bounds foldP_is_fold bit_bool allboolFrom_snoc
+//@   reveal field.sub
+//@   assert@def:currentPath[A] api.ok ==> bits.binvalFrom(currentPath, 0, D+1) == gadget.Index
+//@   assert@def:currentPath[A] api.ok ==> (forall t :: 0 <= t && t <= D ==> currentPath[t] == bits.bit(gadget.Index, t))
+
+//@ func (DeletionProof) DefineGadget
+//@   property C02
+//@   returns Variable
+//@   requires 0 <= gadget.BatchSize && len(gadget.IdComms) == gadget.BatchSize && len(gadget.MerkleProofs) == gadget.BatchSize
+//@   requires len(gadget.DeletionIndices) == gadget.BatchSize
+//@   requires forall j :: 0 <= j && j < gadget.BatchSize ==> len(gadget.MerkleProofs[j]) == gadget.Depth
+//@   requires 0 <= gadget.Depth && gadget.Depth <= 31
+//@   let valid = merkle.delValid(gadget.PreRoot, gadget.DeletionIndices, gadget.IdComms, gadget.MerkleProofs, gadget.Depth, gadget.BatchSize)
+//@   let final = merkle.delRoot(gadget.PreRoot, gadget.DeletionIndices, gadget.IdComms, gadget.MerkleProofs, gadget.Depth, gadget.BatchSize)
+//@   ensures[A] api.ok ==> ok0 && valid
+//@   ensures[H] api.ok == (ok0 && valid)
+//@   ensures[A] api.ok ==> result == final
+//@   ensures[H] result == final
+//@   ensures inField(result)
+//@   lemmas delValid_split delValid_end delRoot_split delRoot_end
+//@   loop 1
+//@     invariant 0 <= i && i <= gadget.BatchSize
+//@     invariant[A] api.ok ==> ok0 && merkle.delValid(gadget.PreRoot, gadget.DeletionIndices, gadget.IdComms, gadget.MerkleProofs, gadget.Depth, i)
+//@     invariant[H] api.ok == (ok0 && merkle.delValid(gadget.PreRoot, gadget.DeletionIndices, gadget.IdComms, gadget.MerkleProofs, gadget.Depth, i))
+//@     invariant[A] api.ok ==> root == merkle.delRoot(gadget.PreRoot, gadget.DeletionIndices, gadget.IdComms, gadget.MerkleProofs, gadget.Depth, i)
+//@     invariant[H] root == merkle.delRoot(gadget.PreRoot, gadget.DeletionIndices, gadget.IdComms, gadget.MerkleProofs, gadget.Depth, i)
+//@     invariant inField(root)
+//@     decreases gadget.BatchSize - i
